@@ -233,6 +233,7 @@ func depth(c *world.Config, d int) *world.Config {
 
 // C01 runs the check.
 func C01(run *report.Run) {
+	blown := 0
 	for _, cfg := range C01Configs(run.Thorough()) {
 		e := &explore.Explorer{Cfg: cfg, Ops: withKeptRoot(cfg, SingleOps(cfg, true)), Mon: &c01Mon{cfg: cfg}, Reduced: true, MaxDepth: cfg.MaxDepth}
 		if cfg.Exact || os.Getenv("VERIF_EXACT") != "" {
@@ -253,6 +254,9 @@ func C01(run *report.Run) {
 			e.MaxStates = 300000
 		}
 		runExplorer(run, "C01", e)
+		if stopEarly(run, e, &blown) {
+			break
+		}
 	}
 	if os.Getenv("VERIF_ONLY") == "" {
 		acc := &pairAcc{}
